@@ -316,6 +316,11 @@ def run(tier, seed):
         dist = {"dedup_reuse": 0, "override_writes": 0, "null_override": 0, "ops": 0}
         for config in ("fs", "fs_meta", "fs_cache"):
             targeted = []
+            if config == "fs":
+                # an override key that itself contains '#' (the separator between key and version): written, then read back
+                ids[0] += 2
+                targeted = [[["memoize", BD.KEY_FNS[0], 0, ids[0] - 1, "b", ids[0] - 1, 64, OVERRIDES[3]], ["read", BD.KEY_FNS[0], 0],
+                             ["memoize", BD.KEY_FNS[1], 1, ids[0], "n", ids[0], 64, OVERRIDES[3]], ["read", BD.KEY_FNS[1], 1], ["read", BD.KEY_FNS[0], 0]]]
             if config == "fs_cache":
                 # two calls publish different arrays under ONE override key; both fall out of the memory cache; the later one
                 # is read (decoded again, and kept alive), then the earlier one: it must read ITS array
